@@ -175,11 +175,13 @@ class C20(Prop):
     theorems = ["Wheatley.C20.step", "Wheatley.C20.tower_refines_spec", "Wheatley.C20.size_spec",
                 "Wheatley.C20.is_assigned_spec", "Wheatley.C20.bot_keeps_view", "Wheatley.C20.extract_roundtrip",
                 "Wheatley.C20.extract_fails_without_marker", "Wheatley.C20.startup_emissions",
-                "Wheatley.alGet_alSet", "Wheatley.alGet_filter"]
+                "Wheatley.alGet_alSet", "Wheatley.alGet_filter",
+                "Wheatley.C20.deliver_tower", "Wheatley.C20.mainStep_tower",
+                "Wheatley.C20.view_is_the_fold_of_the_history", "Wheatley.C20.view_matches_spec_throughout"]
     level_text = ("theorems: refinement - after any history of server messages the handlers' association-list view "
                   "(strokes, holder of each bell, name of each user, hence 'is this bell assigned to <name>') equals a "
                   "data-structure-free 'last relevant message' specification, and the Bot's callbacks never touch the "
-                  "view; the server_ip extraction returns the URL of the first template line; start-up sends c_join "
+                  "view; system level: in every state of every run of the timed world the view is the fold of the messages delivered so far, a prefix of the history (view_is_the_fold_of_the_history); the server_ip extraction returns the URL of the first template line; start-up sends c_join "
                   "then c_request_global_state first. correspondence: random well-formed histories through the real "
                   "handlers compared after every message (size, strokes, holders, ownership for four names) with the "
                   "model and with an independent Python replay; page bodies from a generator through the real "
